@@ -209,6 +209,51 @@ func (s *Scenario) budget(class string) int {
 }
 
 // RunOnce executes the scenario on one prefix (used by replay and by the search).
+const libraryPrefix = "github.com/refraction-networking/utls"
+
+// panicOrigin returns the function that raised a recovered panic: the first frame below the
+// runtime's panic machinery in a debug.Stack() taken inside the deferred recover.
+func panicOrigin(stack string) string {
+	lines := strings.Split(stack, "\n")
+	seenPanic := false
+	for i := 1; i+1 < len(lines); i += 2 {
+		fn := strings.TrimSpace(lines[i])
+		if j := strings.LastIndex(fn, "("); j > 0 {
+			fn = fn[:j]
+		}
+		if strings.HasPrefix(fn, "panic") || strings.HasPrefix(fn, "runtime.") {
+			if strings.HasPrefix(fn, "panic") || strings.Contains(fn, "panic") || strings.Contains(fn, "sigpanic") {
+				seenPanic = true
+			}
+			continue
+		}
+		if seenPanic {
+			return fn
+		}
+	}
+	return ""
+}
+
+func shortFn(fn string) string {
+	if i := strings.LastIndex(fn, "/"); i >= 0 {
+		fn = fn[i+1:]
+	}
+	return fn
+}
+
+func panicClass(msg string) string {
+	if len(msg) > 60 {
+		msg = msg[:60]
+	}
+	out := []rune(msg)
+	for i, c := range out {
+		if c >= '0' && c <= '9' {
+			out[i] = 'N'
+		}
+	}
+	return string(out)
+}
+
 func (s *Scenario) RunOnce(prefix []int) (x *X, r Result) {
 	x = &X{prefix: prefix}
 	if !s.NoRecover {
@@ -220,6 +265,13 @@ func (s *Scenario) RunOnce(prefix []int) (x *X, r Result) {
 					return
 				}
 				st := string(debug.Stack())
+				if fn := panicOrigin(st); strings.HasPrefix(fn, libraryPrefix) && !strings.Contains(fn, "/verifshim/") && !strings.Contains(fn, ".Verif") {
+					// the panic was raised by the library under test, on the harness's goroutine, inside
+					// a public call the scenario did not wrap: that is the library's failure, not ours
+					r = Result{Obs: fmt.Sprintf("LIBRARY-PANIC:%v", e)}
+					r.Viol = append(r.Viol, Violation{"PANIC|library|" + panicClass(fmt.Sprint(e)) + "|in=" + shortFn(fn), fmt.Sprintf("the library panicked in a call made by the scenario: %v\n%s", e, st)})
+					return
+				}
 				r = Result{Obs: fmt.Sprintf("HARNESS-PANIC:%v", e)}
 				r.Viol = append(r.Viol, Violation{"INFRA|harness-panic", fmt.Sprintf("%v\n%s", e, st)})
 			}
